@@ -92,8 +92,8 @@ def build_inputs(ctx, leaves):
     for w in roles:
         roles[w] = [r for r in roles[w] if r.ok]
     # 1. every sequence TLC explored, on real message types
-    per = 1 if ctx.quick else 3
-    budget = 2000 if ctx.quick else 10 ** 9
+    per = 1 if ctx.quick else 2
+    budget = 2000 if ctx.quick else 20000
     order = list(range(len(leaves)))
     rng.shuffle(order)
     acc = [i for i in order if leaves[i]["acc"]]
@@ -190,11 +190,12 @@ def run(ctx):
     hist = {}
     for f in fails:
         hist[f["sig"]] = hist.get(f["sig"], 0) + 1
-    ctx.extra["rejection_signatures"] = hist
+    ctx.extra["monitor_rejections"] = hist
     for f in fails:
         w, toks, data, sm, wf, lab = inputs[f["exec"]]
-        key = (f["sig"], tuple(lab[:3]))
+        key = f["sig"]
         if key in seen:
+            ctx.fail(f["sig"], f["why"], {"label": lab, "see": "first execution with this signature"})
             continue
         seen.add(key)
         ctx.fail(f["sig"], f["why"], {"schema": w, "label": lab, "bytes_hex": data.hex(), "text": data.decode("latin-1").replace("\x01", "|"),
